@@ -30,6 +30,11 @@ func (w *World) DBConn() (*sql.DB, error) {
 	return sql.Open("sqlite3", "file:"+filepath.Join(w.Dir, "data", "ts.db")+"?mode=ro")
 }
 
+// DBConnAt opens an independent read-only connection to an arbitrary database file.
+func (w *World) DBConnAt(path string) (*sql.DB, error) {
+	return sql.Open("sqlite3", "file:"+path+"?mode=ro")
+}
+
 func (w *World) Snapshot() Snap {
 	s := Snap{Sessions: map[string]string{}, Queues: map[string]string{}, Tasks: map[string]string{}, Loot: map[string]string{}, Agents: map[string]string{}}
 	s.Events = len(w.TS.EventsList)
